@@ -129,6 +129,8 @@ class Impl:
         self.finger = {1: np.asarray(onnx.reference.ReferenceEvaluator(m).run(None, {"x": self.xs})[0]),
                        2: np.asarray(onnxruntime.InferenceSession(m.SerializeToString(), so).run(None, {"x": self.xs})[0])}
         self.finger_distinct = not np.array_equal(self.finger[1], self.finger[2])
+        self.exp_model = m          # float32[41] -> float32[41]; inlining it with another argument type raises TypeError at the call
+        self.nraise = 0
 
     def reset(self):
         self.Var._operator_dispatcher = self.default_disp
@@ -153,16 +155,29 @@ class Impl:
         return F.type_warning_level(F.TypeWarningLevel(v))
 
     def do_raise(self, e):
+        # the exception classes are fixed; WHERE they are raised varies: by the caller's own code, or from inside a library call that the
+        # block makes (build / inline / a constructor) - whichever library routine fails, it must leave the three settings alone
+        self.nraise += 1
+        variant = self.nraise % 3
+        import spox
         if e == 0:
-            raise KeyError("k")
+            if variant == 0:
+                raise KeyError("k")
+            return spox.build({}, {"y": self.op.neg(self.x)})                   # an argument the output depends on is not listed
         if e == 1:
-            raise ValueError("v")
+            if variant == 0:
+                raise ValueError("v")
+            return spox.build({"x": self.x}, {})                                  # no outputs
         if e == 2:
             return 1 // 0
         if e == 3:  # spox's own eager inference error
-            return self.op.add(self.x, self.i)
-        if e == 4:  # spox's own eager TypeError (non-Var input)
-            return self.op.add(self.x, "not a var")
+            return self.op.add(self.x, self.i) if variant else self.op.matmul(self.x, self.i)
+        if e == 4:  # a TypeError raised at the call by spox itself
+            if variant == 0:
+                return self.op.add(self.x, "not a var")                           # non-Var input
+            if variant == 1:
+                return spox.inline(self.exp_model)(self.i)                        # argument of another type than the inlined model declares
+            return spox.build({"x": 1}, {"y": self.x})                            # non-Var in the request
         if e == 5:
             raise StopIteration("s")
         raise _MyBase()
